@@ -37,15 +37,22 @@ func libGoroutines() int {
 
 // endConn ends connection c for the given cause; returns false if the cause could not be applied.
 func endConn(c *rawClient, cause string) {
+	// the bytes that end the connection may have to wait behind a full incoming ring: no short deadline
+	wr := func(b []byte) {
+		go func() {
+			c.conn.SetWriteDeadline(time.Now().Add(60 * time.Second))
+			c.conn.Write(b)
+		}()
+	}
 	switch cause {
 	case "disconnect":
-		c.write([]byte{0xe0, 0x00})
+		wr([]byte{0xe0, 0x00})
 	case "close":
 		c.conn.Close()
 	case "protoerr":
-		c.write([]byte{0xf0, 0x00}) // reserved packet type 15
+		wr([]byte{0xf0, 0x00}) // reserved packet type 15
 	case "oversize":
-		c.write([]byte{0x30, 0xff, 0xff, 0xff, 0x7f}) // PUBLISH announcing 256 MB: larger than the ring
+		wr([]byte{0x30, 0xff, 0xff, 0xff, 0x7f}) // PUBLISH announcing 256 MB: larger than the ring
 	case "keepalive":
 		// stay silent: the broker's read deadline (K=1 ⇒ 1.2 s) ends the connection
 	}
@@ -113,14 +120,23 @@ func (lifeCore) handle(ws []string) string {
 			third.take()
 			third.setPaused(true)
 			pl := make([]byte, 1000)
+			floodDone := make(chan struct{})
 			go func() {
+				defer close(floodDone)
 				for i := 0; i < 80; i++ {
-					if subj.write(wPub{topic: []byte("flood"), payload: pl}.encode()) != nil {
+					subj.conn.SetWriteDeadline(time.Now().Add(60 * time.Second))
+					if _, err := subj.conn.Write(wPub{topic: []byte("flood"), payload: pl}.encode()); err != nil {
 						return
 					}
 				}
 			}()
 			time.Sleep(300 * time.Millisecond)
+			if cause != "close" && cause != "keepalive" {
+				// the ending bytes follow the flood on the same stream
+				queued := cause
+				go func() { <-floodDone; endConn(subj, queued) }()
+				cause = "(queued)"
+			}
 		}
 		endConn(subj, cause)
 		budget := lifeWait
